@@ -186,6 +186,18 @@ class C18Bounded(Bounded):
                     if got != want and (want or not v6):          # IPv6: every member is matched (the property does not ask for exactness there)
                         fail("non-native", f"backend variant {X.__name__} without native CIDR expression, networks {nl}: query {q[0]!r} {'matches' if got else 'does not match'} the address {a}, which is {'inside' if want else 'outside'}", [X.__name__, nl, a])
                         break
+        # several networks under `all`: every network is its own condition (an address has to be in each of them) - nothing is merged
+        for nets_all in (["10.0.0.0/8", "10.1.0.0/16"], ["192.168.1.0/25", "192.168.1.128/25"], ["2001:db8::/32", "2001:db8:1::/48"]):
+            ev += 1
+            nontriv += 1
+            rule = "title: t\nlogsource:\n  category: c\ndetection:\n  s:\n    f|cidr|all:\n" + "".join(f"      - '{n}'\n" for n in nets_all) + "  condition: s\n"
+            try:
+                got = B().convert(SigmaCollection.from_yaml(rule))[0]
+            except Exception as e:
+                got = f"{type(e).__name__}: {e}"
+            want = " and ".join(f"f|{ipaddress.ip_network(n)}|{ipaddress.ip_network(n).network_address}|{ipaddress.ip_network(n).prefixlen}|{ipaddress.ip_network(n).netmask}" for n in nets_all)
+            if got != want:
+                fail("cidr-all", f"f|cidr|all: {nets_all} on a backend with a native expression: {got!r}, expected every network as its own condition: {want!r}", [nets_all])
         # value transformations of a pipeline are for strings / numbers: a network stays a network (native expression and expansion unchanged)
         from sigma.processing.pipeline import ProcessingPipeline
         for tr_ in ({"type": "convert_type", "target_type": "str"}, {"type": "case", "method": "lower"}, {"type": "case", "method": "upper"}, {"type": "replace_string", "regex": "0", "replacement": "9"},
